@@ -117,6 +117,13 @@ class Ptr:
     def __repr__(s): return f'&{s.r.name if s.r else "null"}+{s.off}'
 
 
+class MuxPtr:
+    """c ? a : b  for pointers into different objects"""
+    __slots__ = ('c', 'a', 'b')
+    def __init__(s, c, a, b): s.c = c; s.a = a; s.b = b
+    def __repr__(s): return f'MuxPtr({s.a},{s.b})'
+
+
 class FnPtr:
     def __init__(s, name): s.name = name
 
